@@ -812,4 +812,373 @@ theorem parseD_no_crash (c : Codec) (hc : c.Good) (mem : Nat) (hmem2 : mem ≤ 9
                   · simp at hmem; unfold elemSize at *; omega
               · simp [h5, NoCrash, Outcome.isCrash]
 
+/-! ### allocation bounds -/
+
+/-- bytes pre-allocated per announced element: 40 for codec 1, 0 for codec 2 -/
+def pf (c : Codec) : Nat := if c.prealloc then elemSize else 0
+
+/-- allocation per input byte with `d` stack frames available -/
+def K (c : Codec) (d : Nat) : Nat := 3 + pf c * d
+
+/-- a successful decode allocated at most `k` bytes per consumed byte -/
+def AllocOk (k : Nat) (r : Res) : Prop := ∀ v n, r.out = .ok v n → r.allocs.sum ≤ k * n
+
+theorem field_length (bs : Bytes) (pos : Nat) (s : Bytes) (h : field bs pos = some s) (hp : pos ≤ bs.length) :
+    s.length + 1 = pos := by
+  unfold field at h
+  split at h
+  · simp at h
+  · simp at h
+    subst h
+    simp
+    omega
+
+theorem parseLine_allocs (c : Codec) (hc : c.Good) (mk : Bytes → Val) (bs : Bytes) :
+    (parseLine c mk bs).allocs.sum ≤ 3 * bs.length ∧ AllocOk 3 (parseLine c mk bs) := by
+  unfold AllocOk parseLine
+  cases hpos : c.findCrlf bs with
+  | none => simp
+  | some pos =>
+    have hb := hc.bound bs pos hpos
+    simp only []
+    cases hf : field bs pos with
+    | none => simp
+    | some s =>
+      have hl := field_length bs pos s hf (by omega)
+      have := hc.strLen s
+      simp
+      omega
+
+theorem parseInt_allocs (c : Codec) (bs : Bytes) : (parseInt c bs).allocs = [] := by
+  unfold parseInt
+  repeat (first | rfl | split)
+
+theorem parseBulk_allocs (c : Codec) (hc : c.Good) (bs : Bytes) (hs : Small bs) :
+    (parseBulk c bs).allocs.sum ≤ 3 * bs.length ∧ AllocOk 3 (parseBulk c bs) := by
+  unfold AllocOk parseBulk
+  cases hpos : c.findCrlf bs with
+  | none => simp
+  | some pos =>
+    have hb := hc.bound bs pos hpos
+    simp only []
+    cases hf : field bs pos with
+    | none => simp
+    | some s =>
+      simp only []
+      cases hn : parseI64 s with
+      | none => simp
+      | some n =>
+        simp only []
+        by_cases h1 : n = -1
+        · simp [h1]
+        · simp only [h1, if_false]
+          generalize asUsize n = m
+          unfold Small at hs
+          unfold W
+          split
+          · simp
+          · split
+            · simp
+            · simp
+              omega
+
+theorem elems_allocs_ok (p : Bytes → Res) (ec : Bool) (k : Nat)
+    (hpc : ∀ s, Small s → ConsumedOK (p s) s)
+    (hpa : ∀ s, Small s → AllocOk k (p s)) :
+    ∀ (n : Nat) (rest : Bytes), Small rest → ∀ vs m a, elems p ec n rest = (.ok vs m, a) →
+      a.sum ≤ k * m := by
+  intro n
+  induction n with
+  | zero =>
+    intro rest _ vs m a h
+    simp [elems] at h
+    obtain ⟨_, h3⟩ := h
+    subst h3
+    simp
+  | succ n ih =>
+    intro rest hs vs m a h
+    unfold elems at h
+    split at h
+    · simp at h
+    · simp only at h
+      split at h
+      · rename_i v k0 hk0
+        have h0 := hpc rest hs v k0 hk0
+        have ha := hpa rest hs v k0 hk0
+        split at h
+        · simp at h
+        · split at h
+          · rename_i vs' k' a' he
+            have := ih (rest.drop k0) (hs.drop k0) vs' k' a' he
+            simp at h
+            obtain ⟨⟨_, h2⟩, h3⟩ := h
+            subst h2 h3
+            simp [Nat.mul_add]
+            omega
+          · simp at h
+      · simp at h
+
+theorem elems_allocs_len (p : Bytes → Res) (ec : Bool) (k : Nat) (Q : Bytes → Prop)
+    (hQ : ∀ s j, Q s → Q (s.drop j))
+    (hpc : ∀ s, Small s → ConsumedOK (p s) s)
+    (hpa : ∀ s, Small s → AllocOk k (p s))
+    (hpl : ∀ s, Q s → Small s → (p s).allocs.sum ≤ k * s.length) :
+    ∀ (n : Nat) (rest : Bytes), Q rest → Small rest →
+      (elems p ec n rest).2.sum ≤ k * rest.length := by
+  intro n
+  induction n with
+  | zero => intro rest _ _; simp [elems]
+  | succ n ih =>
+    intro rest hq hs
+    unfold elems
+    split
+    · simp
+    · simp only
+      have hl := hpl rest hq hs
+      cases hout : (p rest).out with
+      | ok v k0 =>
+        have h0 := hpc rest hs v k0 hout
+        have ha := hpa rest hs v k0 hout
+        have hk1 : ¬ (k0 > rest.length ∧ n ≠ 0 ∧ ¬ ec = true) := by omega
+        simp only [hk1, if_false]
+        have := ih (rest.drop k0) (hQ rest k0 hq) (hs.drop k0)
+        cases he : elems p ec n (rest.drop k0) with
+        | mk e al =>
+          rw [he] at this
+          simp at this
+          have hsum : (p rest).allocs.sum + al.sum ≤ k * rest.length := by
+            have h1 : k * k0 + k * (rest.length - k0) = k * rest.length := by
+              rw [← Nat.mul_add]; congr 1; omega
+            omega
+          cases e with
+          | ok vs k' => simpa using hsum
+          | stop o => simpa using hsum
+      | incomplete _ => simpa using hl
+      | error _ => simpa using hl
+      | crash _ => simpa using hl
+
+theorem preList_sum (r : Nat) : (preList r).sum = r := by
+  unfold preList; split <;> simp_all
+
+theorem asUsize_neg (n : Int) (h0 : n < 0) (h1 : -9223372036854775808 ≤ n) :
+    9223372036854775808 ≤ asUsize n := by
+  unfold asUsize W
+  omega
+
+/-- on the way to the element loop the pre-allocation is at most `pf c` bytes per announced
+    element, and the announced number is not negative when something is pre-allocated -/
+theorem preReq_le (c : Codec) (n : Int) (hr : -9223372036854775808 ≤ n ∧ n ≤ 9223372036854775807)
+    (h2 : ¬ preReq c n > isizeMax) : preReq c n = pf c * n.toNat := by
+  unfold preReq pf at *
+  split
+  · rename_i hp
+    simp only [hp, if_true] at h2
+    by_cases hneg : n < 0
+    · have := asUsize_neg n hneg hr.1
+      unfold isizeMax elemSize at h2
+      omega
+    · rw [asUsize_nonneg n (by omega) hr.2, Nat.mul_comm]
+  · simp
+
+theorem AllocOk.mono {k k' : Nat} {r : Res} (h : AllocOk k r) (hk : k ≤ k') : AllocOk k' r := by
+  intro v n ho
+  have := h v n ho
+  have := Nat.mul_le_mul_right n hk
+  omega
+
+theorem parseArray_alloc_ok (c : Codec) (hc : c.Good) (mem : Nat) (p : Bytes → Res) (k : Nat)
+    (hpc : ∀ s, Small s → ConsumedOK (p s) s)
+    (hpa : ∀ s, Small s → AllocOk k (p s))
+    (bs : Bytes) (hs : Small bs) : AllocOk (k + pf c) (parseArray c mem p bs) := by
+  unfold AllocOk parseArray
+  cases hpos : c.findCrlf bs with
+  | none => simp
+  | some pos =>
+    have hb := hc.bound bs pos hpos
+    simp only []
+    cases hf : field bs pos with
+    | none => simp
+    | some s =>
+      simp only []
+      cases hn : parseI64 s with
+      | none => simp
+      | some n =>
+        simp only []
+        have hr := parseI64_range s n hn
+        by_cases h1 : n = -1
+        · simp [h1]
+        · simp only [h1, if_false]
+          by_cases h2 : preReq c n > isizeMax
+          · simp [h2]
+          · simp only [h2, if_false]
+            by_cases h3 : preReq c n ≥ mem ∧ preReq c n ≠ 0
+            · simp [h3]
+            · simp only [h3, if_false]
+              have hpre := preReq_le c n hr h2
+              cases he : elems p c.emptyCheck n.toNat (bs.drop (pos + 2)) with
+              | mk e al =>
+                cases e with
+                | ok vs k' =>
+                  have h5 := elems_consumed p c.emptyCheck hpc _ _ (hs.drop (pos + 2)) vs k' al he
+                  have h6 := elems_allocs_ok p c.emptyCheck k hpc hpa _ _ (hs.drop (pos + 2)) vs k' al he
+                  intro v m hm
+                  simp at hm
+                  obtain ⟨_, hm2⟩ := hm
+                  subst hm2
+                  simp only [List.sum_append, preList_sum, hpre]
+                  have e1 : pf c * n.toNat ≤ pf c * (pos + 2 + k') := Nat.mul_le_mul_left _ (by omega)
+                  have e2 : k * k' ≤ k * (pos + 2 + k') := Nat.mul_le_mul_left _ (by omega)
+                  rw [Nat.add_mul]
+                  omega
+                | stop o =>
+                  intro v m hm
+                  simp only at hm
+                  subst hm
+                  exact absurd he (elems_stop_not_ok p c.emptyCheck _ _ _ _ _)
+
+theorem pf_mul_le (c : Codec) (n : Nat) (len : Nat) (h : c.prealloc = false ∨ n ≤ len) :
+    pf c * n ≤ pf c * len := by
+  unfold pf
+  split
+  · rename_i hp
+    cases h with
+    | inl h => simp [hp] at h
+    | inr h => exact Nat.mul_le_mul_left _ h
+  · simp
+
+theorem parseArray_alloc_len (c : Codec) (hc : c.Good) (mem : Nat) (p : Bytes → Res) (k : Nat)
+    (Q : Bytes → Prop) (hQ : ∀ s j, Q s → Q (s.drop j))
+    (hpc : ∀ s, Small s → ConsumedOK (p s) s)
+    (hpa : ∀ s, Small s → AllocOk k (p s))
+    (hpl : ∀ s, Q s → Small s → (p s).allocs.sum ≤ k * s.length)
+    (bs : Bytes) (hs : Small bs) (hq : Q bs)
+    (hsane : c.prealloc = false ∨ headerSane c bs = true) (h42 : bs.head? = some 42) :
+    (parseArray c mem p bs).allocs.sum ≤ (k + pf c) * bs.length := by
+  unfold parseArray
+  cases hpos : c.findCrlf bs with
+  | none => simp
+  | some pos =>
+    have hb := hc.bound bs pos hpos
+    simp only []
+    cases hf : field bs pos with
+    | none => simp
+    | some s =>
+      simp only []
+      cases hn : parseI64 s with
+      | none => simp
+      | some n =>
+        simp only []
+        have hr := parseI64_range s n hn
+        by_cases h1 : n = -1
+        · simp [h1]
+        · simp only [h1, if_false]
+          by_cases h2 : preReq c n > isizeMax
+          · simp [h2]
+          · simp only [h2, if_false]
+            have hpre := preReq_le c n hr h2
+            have hn_le : c.prealloc = false ∨ n.toNat ≤ bs.length := by
+              cases hsane with
+              | inl h => exact Or.inl h
+              | inr h =>
+                right
+                cases bs with
+                | nil => simp at h42
+                | cons t rest =>
+                  simp at h42
+                  subst h42
+                  unfold headerSane at h
+                  simp only [hpos, hf, hn] at h
+                  simp at h ⊢
+                  omega
+            have hpre2 : preReq c n ≤ pf c * bs.length := by
+              rw [hpre]; exact pf_mul_le c _ _ hn_le
+            by_cases h3 : preReq c n ≥ mem ∧ preReq c n ≠ 0
+            · rw [if_pos h3]
+              simp
+              have : pf c * bs.length ≤ (k + pf c) * bs.length := Nat.mul_le_mul_right _ (by omega)
+              omega
+            · simp only [h3, if_false]
+              have h6 := elems_allocs_len p c.emptyCheck k Q hQ hpc hpa hpl n.toNat (bs.drop (pos + 2))
+                (hQ bs _ hq) (hs.drop (pos + 2))
+              have hsum : preReq c n + (elems p c.emptyCheck n.toNat (bs.drop (pos + 2))).2.sum ≤ (k + pf c) * bs.length := by
+                have e2 : k * (bs.drop (pos + 2)).length ≤ k * bs.length := Nat.mul_le_mul_left _ (by simp)
+                rw [Nat.add_mul]
+                omega
+              cases he : elems p c.emptyCheck n.toNat (bs.drop (pos + 2)) with
+              | mk e al =>
+                rw [he] at hsum
+                cases e with
+                | ok vs k' => simpa [preList_sum] using hsum
+                | stop o => simpa [preList_sum] using hsum
+
+theorem K_succ (c : Codec) (d : Nat) : K c (d + 1) = K c d + pf c := by
+  unfold K; rw [Nat.mul_add]; omega
+
+theorem K_ge3 (c : Codec) (d : Nat) : 3 ≤ K c d := by unfold K; omega
+
+theorem parseD_alloc_ok (c : Codec) (hc : c.Good) (mem : Nat) :
+    ∀ (d : Nat) (bs : Bytes), Small bs → AllocOk (K c d) (parseD c mem d bs) := by
+  intro d
+  induction d with
+  | zero => intro bs _ v n h; simp [parseD] at h
+  | succ d ih =>
+    intro bs hs
+    cases bs with
+    | nil => intro v n h; simp [parseD] at h
+    | cons t rest =>
+      unfold parseD
+      split
+      · exact (parseLine_allocs c hc _ _).2.mono (K_ge3 c _)
+      · split
+        · exact (parseLine_allocs c hc _ _).2.mono (K_ge3 c _)
+        · split
+          · intro v n _; rw [parseInt_allocs]; simp
+          · split
+            · exact (parseBulk_allocs c hc _ hs).2.mono (K_ge3 c _)
+            · split
+              · rw [K_succ]
+                exact parseArray_alloc_ok c hc mem _ (K c d) (parseD_consumed c hc mem d) ih _ hs
+              · intro v n h; simp at h
+
+/-- with `Vec::new()` (codec 2), or when every length header is sane, the decoder allocates at
+    most `K c d` bytes per input byte, whatever the outcome -/
+theorem parseD_alloc_len (c : Codec) (hc : c.Good) (mem : Nat) :
+    ∀ (d : Nat) (bs : Bytes), Small bs → (c.prealloc = false ∨ LengthsSane c bs = true) →
+      (parseD c mem d bs).allocs.sum ≤ K c d * bs.length := by
+  intro d
+  induction d with
+  | zero => intro bs _ _; simp [parseD]
+  | succ d ih =>
+    intro bs hs hsane
+    cases bs with
+    | nil => simp [parseD]
+    | cons t rest =>
+      have h3 : 3 * (t :: rest).length ≤ K c (d + 1) * (t :: rest).length :=
+        Nat.mul_le_mul_right _ (K_ge3 c _)
+      unfold parseD
+      split
+      · have := (parseLine_allocs c hc Val.simple (t :: rest)).1; omega
+      · split
+        · have := (parseLine_allocs c hc Val.error (t :: rest)).1; omega
+        · split
+          · rw [parseInt_allocs]; simp
+          · split
+            · have := (parseBulk_allocs c hc (t :: rest) hs).1; omega
+            · split
+              · rename_i h42
+                rw [K_succ]
+                refine parseArray_alloc_len c hc mem _ (K c d)
+                  (fun s => c.prealloc = false ∨ LengthsSane c s = true) ?_
+                  (parseD_consumed c hc mem d) (parseD_alloc_ok c hc mem d) ?_ _ hs hsane ?_ (by simp [h42])
+                · intro s j hq
+                  cases hq with
+                  | inl h => exact Or.inl h
+                  | inr h => exact Or.inr (LengthsSane_drop c s j h)
+                · intro s hq hss
+                  exact ih s hss hq
+                · cases hsane with
+                  | inl h => exact Or.inl h
+                  | inr h => exact Or.inr (LengthsSane_head c _ _ h)
+              · simp
+
 end RedisVerif.Resp
